@@ -223,9 +223,12 @@ class Verdict:
         for text, n in self.known_hits.items():
             print("KNOWN-FINDING: property=%s %s (%d observations)" % (self.pid, text, n))
         rc = 0
+        rdir = os.path.join(VERIF, "replays")
+        os.makedirs(rdir, exist_ok=True)
+        for fn in os.listdir(rdir):         # replay files of earlier runs of this check and tier are stale now
+            if fn.startswith("%s_%s_" % (self.pid, "replayed" if self.replay_mode else tier())):
+                os.remove(os.path.join(rdir, fn))
         if self.violations:
-            rdir = os.path.join(VERIF, "replays")
-            os.makedirs(rdir, exist_ok=True)
             per = {}
             shown = 0
             for i, v in enumerate(self.violations[:200]):
